@@ -216,6 +216,7 @@ def main(tier):
 
     scratch_files = 0
     scratch_entries = 0
+    reloads = 0
     for fno in range(3 if tier == "quick" else 40):
         tmp = tempfile.mkdtemp(prefix="verif-c19-")
         try:
@@ -254,6 +255,47 @@ def main(tier):
                 M.Conf.get_path = orig
                 if pp2 is not None:
                     type(pp2).behaviors = dict()
+            # a second load in the same process (the behaviours dict is class-level): the file was re-resolved, names keep, bodies change
+            expect2 = {}
+            lines2 = []
+            for i, n in enumerate(expect):
+                if i % 3 == 0:
+                    body2 = "{ " + MARK + "{ " + gen_body(r3) + "; }" + MARK + gen_body(r3) + "; }"
+                else:
+                    body2 = "{ " + gen_body(r3) + "; }"
+                expect2[n] = body2
+                lines2.append(f"insn({n}, {body2})\n")
+            with open(fpath, "w") as f:
+                f.writelines(lines2)
+            M.Conf.get_path = staticmethod(lambda file, arch_name="": fpath if "SHORTCODE_RESOLVED_H" in repr(file) or str(file).endswith("shortcode_resolved.h") else orig(file, arch_name))
+            got2 = None
+            try:
+                if got is not None:
+                    type(pp2).behaviors = dict(got)  # what the first load left behind
+                    pp3 = PP(fpath)
+                    pp3.load_insn_behavior()
+                    got2 = dict(pp3.behaviors)
+            except Exception as e:  # noqa
+                err2 = repr(e)[:200]
+            finally:
+                M.Conf.get_path = orig
+                type(pp2).behaviors = dict()
+            if got is not None:
+                cases += 1
+                reloads += 1
+                if got2 is None:
+                    run.violation(f"second load_insn_behavior in one process raises: {err2}", {"kind": "loader_reload"}, key="loader_reload_raise")
+                else:
+                    for n, b in expect2.items():
+                        g2 = got2.get(n)
+                        if MARK in b:
+                            want = strip_outer(tokens(b.replace(MARK, " ")))
+                            ok2 = g2 is not None and len(g2) == 2 and strip_outer(tokens(g2[1])) is not None and tokens(g2[0]) + strip_outer(tokens(g2[1])) == want
+                        else:
+                            ok2 = g2 == [b]
+                        if not ok2:
+                            run.violation(f"second load in one process: entry {n} still has the body of the first load / is wrong", {"kind": "loader_reload", "name": n, "body": b, "got": g2, "first": got.get(n)}, key="loader_reload")
+                            break
             cases += 1
             scratch_files += 1
             if got is None:
@@ -284,7 +326,7 @@ def main(tier):
         "rule": "one case = one line (or compound body) handed to the real function and to the independent splitter; distinct non-trivial = distinct well-formed "
                 "bodies containing ( ) , or { that were recovered exactly, and compound bodies split without loss",
         "samples": samples or [{"note": "none"}], "bundled_lines": len(bundled), "bundled_compounds": ncomp, "generated_lines": ngen,
-        "scratch_files_loaded": scratch_files, "scratch_entries_compared": scratch_entries,
+        "scratch_files_loaded": scratch_files, "reloads_with_changed_bodies": reloads, "scratch_entries_compared": scratch_entries,
     }, hard_inconclusive=None if cases > 1000 else "too few lines")
 
 
